@@ -10,7 +10,13 @@ model's prediction."""
 import itertools
 import os
 import re
+import importlib.util
 import vlib
+
+HERE = os.path.dirname(os.path.abspath(__file__))
+_spec = importlib.util.spec_from_file_location("c18_sites", os.path.join(HERE, "sites.py"))
+sites = importlib.util.module_from_spec(_spec)
+_spec.loader.exec_module(sites)
 
 PROOFS = ["MgProof.C18.Lemmas", "MgProof.C18.LemmasOps", "MgProof.C18.LemmasNC", "MgProof.C18.LemmasEv",
           "MgProof.C18.LemmasSeq", "MgProof.C18.LemmasFam", "MgProof.C18.Props"]
@@ -59,10 +65,14 @@ INITS = {
     "evsig": ([""], "evsig.destroy"),
     "evloop": (["%d %d %d" % (t, m, hh) for t in (1, 2, 3, 0) for m in (0, 1) for hh in (2, 0)], "evloop.delete"),
     "sockh": ([""], "sockh.destroy"),
+    "evpipe": ([""], "evpipe.destroy"),
+    "sock": ([""], "sock.close"),
+    "ffctl": (["1 4", "2 1"], "ffctl.destroy"),
     "alog": (["4", "8"], "alog.destroy"),
 }
 INIT_OP = {f: f + ".init" for f in INITS}
 INIT_OP["evloop"] = "evloop.new"
+INIT_OP["sock"] = "sock.create"
 KMAX_INIT = 11          # the longest success path (evloop.new epoll + node pool) has 10 acquisitions
 
 # growers / inserters: family -> (init args, ops that may acquire, ops that release, a pre-op)
@@ -102,10 +112,20 @@ def pre_op(fam, i):
     return GROW[fam][3]
 
 
+def corpus_cases():
+    d = os.path.join(vlib.VERIF, "corpus", "C18")
+    res = []
+    if os.path.isdir(d):
+        for f in sorted(os.listdir(d)):
+            if f.endswith(".ops"):
+                res.append([l.rstrip("\n") for l in open(os.path.join(d, f)) if l.strip()])
+    return res
+
+
 def gen_cases(ctx):
     quick = ctx.quick
     rng = ctx.rng
-    cases = []
+    cases = corpus_cases()
     # (i-a) complete enumeration of single-fault positions of every constructor, each followed by
     #       destroy / retry+destroy; plus every pair of fault positions (k1<k2)
     for fam, (variants, destroy) in INITS.items():
@@ -122,8 +142,11 @@ def gen_cases(ctx):
                 pairs = [p for p in pairs if p[1] <= 6]
             for k1, k2 in pairs:
                 cases.append(["fault %d %d" % (k1, k2), call, call, destroy])
+            if not quick:       # every triple of fault positions
+                for ks in itertools.combinations(range(1, KMAX_INIT + 1), 3):
+                    cases.append(["fault %d %d %d" % ks, call, call, call, destroy])
     # (i-b) complete enumeration for growers / inserters from every small state
-    npre = 4 if quick else 7
+    npre = 6 if quick else 10
     for fam, (variants, acq_ops, rel_ops, _) in GROW.items():
         init = INIT_OP[fam]
         destroy = INITS[fam][1]
@@ -135,7 +158,7 @@ def gen_cases(ctx):
                         flt = "fault %d" % k if k else "fault"
                         cases.append(pre + [flt, op, destroy])
                         cases.append(pre + [flt, op, op, op] + rel_ops + [destroy])
-                    if not quick or n <= 2:
+                    if not quick or n <= 3:
                         for k1, k2 in itertools.combinations(range(1, 6), 2):
                             cases.append(pre + ["fault %d %d" % (k1, k2), op, op, op, destroy])
     for k in range(0, 3):
@@ -146,7 +169,7 @@ def gen_cases(ctx):
         cases.append(["mpool.init 1 8", "mpool.setflag 1", "mpool.alloc", "fault %d" % k, "mpool.alloc", "mpool.destroy"])
         cases.append(["mpool.init 4 8", "mpool.setmax 1"] + ["mpool.alloc"] * 4 + ["fault %d" % k, "mpool.alloc", "mpool.alloc", "mpool.destroy"])
     # (ii) seeded random multi-fault call sequences per family
-    nrand = 40 if quick else 600
+    nrand = 1500 if quick else 15000
     for fam in INITS:
         variants, destroy = INITS[fam]
         init = INIT_OP[fam]
@@ -197,6 +220,7 @@ def gen_cases(ctx):
         ["avl.init 0", "avl.insert 1", "avl.insert 1", "avl.remove 2", "avl.destroy"],
         ["htab.init 8 0", "htab.put 1", "htab.put 1", "htab.remove 9", "htab.destroy"],
         ["evloop.new 2 0 1", "evloop.add", "evloop.add", "evloop.add", "evloop.delete"],
+        ["ffctl.init 0 4", "ffctl.destroy"], ["ffctl.init 1 0", "ffctl.destroy"], ["evpipe.destroy"], ["sock.close"],
         ["chan.destroy"], ["mpool.alloc"], ["evloop.add"], ["alog.log"], ["nonsense 1 2"], ["trie.insert a"],
         ["chan.init 4 0", "chan.init 4 0", "chan.destroy", "chan.destroy"],
         ["llist.remove", "llist.init 0", "llist.remove", "llist.destroy", "llist.insert"],
@@ -305,18 +329,32 @@ def fault_position_stats(ctx, cases, impl):
     ctx.cov["functions_with_every_position_failed"] = sum(
         1 for n in width if width[n] > 0 and set(range(1, width[n] + 1)) <= hit.get(n, set()))
     ctx.cov["functions_acquiring"] = sum(1 for n in width if width[n] > 0)
+    inv = vlib.json.load(open(os.path.join(HERE, "sites.json")))
+    want = {o for v in inv["sites"].values() for o in v.get("ops", [])}
+    missing = sorted(o for o in want if not hit.get(o))
+    ctx.cov["inventory_ops_never_faulted"] = missing
+    if missing:
+        ctx.broken.append("tieA-sites: operations of the inventory never hit by a fault: " + ",".join(missing))
 
 
 def main(ctx):
     ctx.cov["trusted_base"] = TRUSTED
     ctx.assumptions += TRUSTED[3:]
     ctx.cov["rule"] = (
-        "per constructor (24 families, every variant of flags/backends/node pool): every single fault position "
+        "per constructor (27 families, every variant of flags/backends/node pool): every single fault position "
         "k=0..11 x {destroy, retry+destroy, retry-with-cleared-schedule} and every pair k1<k2; per grower/inserter: "
         "every small state (0..n previous insertions) x every k=0..4 x {destroy, repeat thrice + release}; seeded "
         "random multi-fault call sequences per family; malformed stream. distinct = distinct op lists; "
         "non-trivial = at least one acquisition actually failed inside a library call")
     ctx.lean_obligations("drv_c18", PROOFS, GREP, leanchecker=["MgProof.C18.Props"])
+    # tie A (static): the acquisition call sites of the source are the recorded ones
+    problems, stats = sites.compare(vlib.REPO, os.path.join(HERE, "sites.json"))
+    ctx.cov["ties"]["tieA_sites"] = stats
+    ctx.cov["obligations"] += 1
+    if problems:
+        ctx.broken.append("tieA-sites: acquisition sites differ from checks/C18/sites.json: " + "; ".join(problems[:6]))
+    else:
+        ctx.cov["discharged"] += 1
     if not getattr(ctx, "driver_ok", False):
         return
     try:
